@@ -797,6 +797,29 @@ theorem readonly_rejects_flush (w : World) (s : String) (sid : Nat) (st : Store)
   rw [hst]
   simp [hro]
 
+/-! ### memory-only stores -/
+
+/-- FlushRevert on a memory-only store is refused and nothing changes (C08's last clause) -/
+theorem memory_only_rejects_revert (w : World) (s : String) (sid : Nat) (st : Store)
+    (hs : s.toNat? = some sid) (hst : assocGet sid w.stores = some st) (hf : st.file = none) :
+    stepTokens w ["revert", s] = (w, "err-nofile") := by
+  step_reduce
+  rw [hs]
+  dsimp only
+  rw [hst]
+  simp [hf]
+
+/-- … and so is Flush on a writable memory-only store -/
+theorem memory_only_rejects_flush (w : World) (s : String) (sid : Nat) (st : Store)
+    (hs : s.toNat? = some sid) (hst : assocGet sid w.stores = some st) (hf : st.file = none)
+    (hrw : st.readOnly = false) :
+    stepTokens w ["flush", s] = (w, "err-nofile") := by
+  step_reduce
+  rw [hs]
+  dsimp only
+  rw [hst]
+  simp [hf, hrw]
+
 /-! ### closing / reverting a snapshot -/
 
 theorem close_keeps_files (w : World) (s : String) : (stepTokens w ["close", s]).1.files = w.files := by
